@@ -389,6 +389,12 @@ def run(F, R, tier, M=None):
                 "constructor does not validate the basis", key="V2r|THDM::THDM|%s" % (f["params"][0]["t"] or "")[:40])
 
     # ---- V3 ----------------------------------------------------------------------
+    R.rule("V5", "tachyon detection is complete (MSSM and THDM): each sector flags a tachyon under `min over all squared masses < 0`, "
+                 "tested on the squared masses before sqrt(|m^2|) (the eigenvalues are ordered by modulus, so testing one entry is "
+                 "not enough)", 11)
+    from .rules_c04 import _check_tachyons
+    R.guard(_check_tachyons, F, R, "V5", False)
+
     R.rule("V3", "exit status: the handler assigns EXIT_FAILURE and nothing later reassigns it; the MSSM run "
                  "returns failure iff have_problem(); the writer is called only after the reader returned", 5)
     main = [f for f in F.functions.values() if f.get("main")]
